@@ -4,7 +4,14 @@ import json
 import os
 
 V = os.path.dirname(os.path.dirname(os.path.abspath(__file__)))
-claims = json.load(open(os.path.join(V, "checks", "claims.json")))
+claims = {}
+for f in sorted(os.listdir(os.path.join(V, "checks", "claims"))):
+    if f.endswith(".json"):
+        d = json.load(open(os.path.join(V, "checks", "claims", f)))
+        if f.startswith("_"):
+            claims.update(d)
+        else:
+            claims[f[:-5]] = d
 props = [json.loads(l) for l in open(os.path.join(V, "properties.jsonl"))]
 base = json.load(open("/root/.vp/BASELINE.json")) if os.path.exists("/root/.vp/BASELINE.json") else {"cmd": "go test ./..."}
 checks, na = [], []
